@@ -5,7 +5,7 @@
    A line is a string (ASCII only) or a list whose elements are code points below 128 or records
    (cp word space digit ci (lower ...)) filled in by the harness for the other characters. *)
 From Coq Require Import List NArith ZArith String Ascii Bool Arith.
-From Verif Require Import Lib.Sexp Model.C12_regex Gen.C12_regexes Gen.C12_tables Model.C12_docstrings Model.C12_chars.
+From Verif Require Import Lib.Sexp Model.C12_regex Gen.C12_regexes Gen.C12_tables Model.C12_docstrings Model.C12_chars Model.C12_history.
 Import ListNotations.
 Open Scope string_scope.
 Open Scope list_scope.
@@ -94,6 +94,40 @@ Definition enc_full (fs : list lf) (r : result (list section * list (list ditem)
   | Err e => SList [SStr "err"; flags; feats; enc_err e]
   end.
 
+(* ---- histories on one docstring object ---- *)
+Definition dec_style (s : sexp) : option pstyle :=
+  match s with
+  | SStr x => if String.eqb x "google" then Some PGoogle else if String.eqb x "numpy" then Some PNumpy
+              else if String.eqb x "sphinx" then Some PSphinx else None
+  | _ => None
+  end.
+Definition dec_op (s : sexp) : option op :=
+  match s with
+  | SList [SStr tag; a; b] =>
+      if String.eqb tag "parse" then do a' <- as_opt dec_style a; do b' <- as_opt dec_gopts b; Some (OParse a' b') else None
+  | SList [SStr tag; a] =>
+      if String.eqb tag "setvalue" then do a' <- as_list_of dec_text a; Some (OSetValue a')
+      else if String.eqb tag "setparser" then do a' <- as_opt dec_style a; Some (OSetParser a')
+      else if String.eqb tag "setopts" then do a' <- dec_gopts a; Some (OSetOpts a')
+      else None
+  | SList [SStr tag] =>
+      if String.eqb tag "parsed" then Some OReadParsed else if String.eqb tag "lines" then Some OReadLines else None
+  | _ => None
+  end.
+Definition enc_pres (r : pres) : sexp :=
+  match r with
+  | PPlain cl => SList [SStr "plain"; SList (map enc_text cl)]
+  | PGoogleR x => SList [SStr "google"; enc_full [] x (SList [])]
+  | PNumpyR x => SList [SStr "numpy"; enc_full [] x (SList [])]
+  | PSphinxR x v => SList [SStr "sphinx"; enc_full [] (match x with Ok secs => Ok (secs, []) | Err e => Err e end) (enc_sval v)]
+  end.
+Definition enc_obs (o : obs) : sexp :=
+  match o with
+  | ObsParse r => SList [SStr "parse"; enc_pres r]
+  | ObsLines cl => SList [SStr "lines"; SList (map enc_text cl)]
+  | ObsNone => SList [SStr "none"]
+  end.
+
 (* fail closed: with a regex outside the criterion the matcher is not run at all *)
 Definition regexes_ok : bool := forallb (fun x => regex_ok (snd x)) all_regexes.
 
@@ -112,6 +146,12 @@ Definition run_inner (s : sexp) : sexp :=
       match find_regex key all_regexes, dec_text line with
       | Some x, Some t => enc_text (re_sub_del (rx_ic x) (rx_re x) t)
       | _, _ => bad_input
+      end
+  | SList [SStr "history"; p; pa; SList [ls; sty; o]; ops] =>
+      match dec_parent p, dec_parent_ann pa, as_list_of dec_text ls, as_opt dec_style sty, dec_gopts o, as_list_of dec_op ops with
+      | Some p', Some pa', Some cl, Some sty', Some o', Some ops' =>
+          SList (map enc_obs (snd (exec p' pa' (mkD cl sty' o' None) ops')))
+      | _, _, _, _, _, _ => bad_input
       end
   | SList [SStr style; o; p; pa; ls] =>
       match dec_gopts o, dec_parent p, dec_parent_ann pa, as_list_of dec_text ls with
